@@ -88,4 +88,145 @@ theorem cmp_chain (a b c d c1 c2 c3 c4 : Int)
     rw [e1] at h2 h1 <;> rw [e2] at h3 h2 <;> rw [e3] at h4 h3 <;> rcases e4 with e4 | e4 <;>
     rw [e4] at h4 ⊢ <;> constructor <;> intro _ <;> omega
 
+/-- `Mul`/`Square`: the final `r3 += c` of the second reduction pass cannot overflow.
+    Hypotheses = kernel-checked exact identities of single steps (carries are atoms) + word ranges. -/
+theorem mul_side (r8A w4 w5 w6 w7 w4' w5' w6' w7' f8 G f4 c7 c8 c9 a3 e s5 f7 s7 e8 s8 e9 s9
+      t0 t1 t2 u0 u1 u2 c10 : Int)
+    (hr8 : r8A = 0)
+    (b1 : 0 ≤ w4 ∧ w4 ≤ 2 ^ 64 - 1) (b2 : 0 ≤ w5 ∧ w5 ≤ 2 ^ 64 - 1) (b3 : 0 ≤ w6 ∧ w6 ≤ 2 ^ 64 - 1)
+    (b4 : 0 ≤ w7 ∧ w7 ≤ 2 ^ 64 - 1) (b5 : 0 ≤ w4' ∧ w4' ≤ 2 ^ 64 - 1) (b6 : 0 ≤ w5' ∧ w5' ≤ 2 ^ 64 - 1)
+    (b7 : 0 ≤ w6' ∧ w6' ≤ 2 ^ 64 - 1) (b8 : 0 ≤ w7' ∧ w7' ≤ 2 ^ 64 - 1) (b9 : 0 ≤ f8 ∧ f8 ≤ 1)
+    (b10 : 0 ≤ f4 ∧ f4 ≤ 1) (b11 : 0 ≤ c7 ∧ c7 ≤ 1) (b12 : 0 ≤ c8 ∧ c8 ≤ 1) (b13 : 0 ≤ c9 ∧ c9 ≤ 1)
+    (b14 : 0 ≤ a3 ∧ a3 ≤ 2 ^ 64 - 1) (b15 : 0 ≤ e ∧ e ≤ 1) (b16 : 0 ≤ s5 ∧ s5 ≤ 2 ^ 64 - 1)
+    (b17 : 0 ≤ f7 ∧ f7 ≤ 1) (b18 : 0 ≤ s7 ∧ s7 ≤ 2 ^ 64 - 1) (b19 : 0 ≤ e8 ∧ e8 ≤ 1)
+    (b20 : 0 ≤ s8 ∧ s8 ≤ 2 ^ 64 - 1) (b21 : 0 ≤ e9 ∧ e9 ≤ 1) (b22 : 0 ≤ s9 ∧ s9 ≤ 2 ^ 64 - 1)
+    (b23 : 0 ≤ t0 ∧ t0 ≤ 2 ^ 64 - 1) (b24 : 0 ≤ t1 ∧ t1 ≤ 2 ^ 64 - 1) (b25 : 0 ≤ t2 ∧ t2 ≤ 2 ^ 64 - 1)
+    (b26 : 0 ≤ u0 ∧ u0 ≤ 2 ^ 64 - 1) (b27 : 0 ≤ u1 ∧ u1 ≤ 2 ^ 64 - 1) (b28 : 0 ≤ u2 ∧ u2 ≤ 2 ^ 64 - 1)
+    (b29 : 0 ≤ c10 ∧ c10 ≤ 1) (b30 : 0 ≤ G)
+    (H2 : w4' + 2 ^ 64 * w5' + 2 ^ 128 * w6' + 2 ^ 192 * w7' + 2 ^ 256 * f8
+        = w4 + 2 ^ 64 * w5 + 2 ^ 128 * w6 + 2 ^ 192 * w7 + 4294968273 * r8A)
+    (H3 : G = f4 + c7 + c8 + c9 + 4294968273 * f8)
+    (H4 : s5 + 2 ^ 64 * f4 = a3 + e)
+    (H5 : s7 + 2 ^ 64 * c7 = s5 + 4294968273 * f7)
+    (H6 : s8 + 2 ^ 64 * c8 = s7 + e8)
+    (H7 : s9 + 2 ^ 64 * c9 = s8 + e9)
+    (H8 : u0 + 2 ^ 64 * u1 + 2 ^ 128 * u2 + 2 ^ 192 * c10 = t0 + 2 ^ 64 * t1 + 2 ^ 128 * t2 + 4294968273 * G) :
+    s9 + c10 ≤ 2 ^ 64 - 1 := by
+  subst hr8
+  have hf8 : f8 = 0 := by omega
+  subst hf8
+  have e1 : f4 = 0 ∨ f4 = 1 := by omega
+  have e2 : c7 = 0 ∨ c7 = 1 := by omega
+  have e3 : c8 = 0 ∨ c8 = 1 := by omega
+  have e4 : c9 = 0 ∨ c9 = 1 := by omega
+  have e5 : c10 = 0 ∨ c10 = 1 := by omega
+  rcases e5 with e5 | e5
+  · omega
+  · -- c10 = 1 forces G ≥ 1, and then r3 is small
+    have hG : 1 ≤ G := by
+      by_contra h
+      have : G = 0 := by omega
+      subst this; subst e5; omega
+    rcases e4 with e4 | e4
+    · rcases e3 with e3 | e3
+      · rcases e2 with e2 | e2
+        · have : f4 = 1 := by omega
+          subst this; subst e2; subst e3; subst e4; omega
+        · subst e2; subst e3; subst e4; omega
+      · subst e3; subst e4; omega
+    · subst e4; omega
+
+/-- scalar `Lsh8`: shifted low part + L4·(2^256 − n) overflows 2^256 at most once, and then the low part is small -/
+theorem lsh8_arith (SL L4 lo c0 : Int) (hSL : 0 ≤ SL ∧ SL < 2 ^ 256) (hL4 : 0 ≤ L4 ∧ L4 ≤ 511)
+    (hlo : 0 ≤ lo ∧ lo < 2 ^ 256) (hc0 : 0 ≤ c0)
+    (hid : lo + 2 ^ 256 * c0 = SL + 432420386565659656852420866394968145599 * L4) :
+    c0 ≤ 1 ∧ (c0 = 1 → lo < 2 ^ 140) := by
+  constructor
+  · omega
+  · intro h; subst h; omega
+
+/-- scalar `Add8` -/
+theorem add8_arith (lowin v4 u lo o4 : Int) (hlow : 0 ≤ lowin ∧ lowin < 2 ^ 256) (hv4 : 0 ≤ v4 ∧ v4 ≤ 1)
+    (hrel : v4 = 1 → lowin < 2 ^ 140) (hu : 0 ≤ u ∧ u ≤ 255) (hlo : 0 ≤ lo ∧ lo < 2 ^ 256) (ho4 : 0 ≤ o4)
+    (hid : lo + 2 ^ 256 * o4 = lowin + 2 ^ 256 * v4 + u) :
+    o4 ≤ 1 ∧ (o4 = 1 → lo < 2 ^ 141) := by
+  have : v4 = 0 ∨ v4 = 1 := by omega
+  rcases this with h | h
+  · subst h; constructor
+    · omega
+    · intro h1; subst h1; omega
+  · have := hrel h; subst h; constructor
+    · omega
+    · intro h1; subst h1; omega
+
+/-- the carry chain of the comparison with n:  c₄ = 1 ⇔ t + (2^256 − n) ≥ 2^256 -/
+theorem cmp_chain_n (a b c d c1 c2 c3 c4 : Int)
+    (ha0 : 0 ≤ a) (ha1 : a ≤ 2 ^ 64 - 1) (hb0 : 0 ≤ b) (hb1 : b ≤ 2 ^ 64 - 1)
+    (hc0 : 0 ≤ c) (hc1 : c ≤ 2 ^ 64 - 1) (hd0 : 0 ≤ d) (hd1 : d ≤ 2 ^ 64 - 1)
+    (h1 : c1 = (a + 4624529908474429119 + 0) / 2 ^ 64) (h2 : c2 = (b + 4994812053365940164 + c1) / 2 ^ 64)
+    (h3 : c3 = (c + 1 + c2) / 2 ^ 64) (h4 : c4 = (d + 0 + c3) / 2 ^ 64) :
+    (c4 = 0 ∨ c4 = 1) ∧
+    (c4 = 0 ↔ a + 2 ^ 64 * b + 2 ^ 128 * c + 2 ^ 192 * d + 432420386565659656852420866394968145599 < 2 ^ 256) := by
+  have e1 : c1 = 0 ∨ c1 = 1 := by omega
+  have e2 : c2 = 0 ∨ c2 = 1 := by omega
+  have e3 : c3 = 0 ∨ c3 = 1 := by omega
+  have e4 : c4 = 0 ∨ c4 = 1 := by omega
+  refine ⟨e4, ?_⟩
+  rcases e1 with e1 | e1 <;> rcases e2 with e2 | e2 <;> rcases e3 with e3 | e3 <;>
+    rw [e1] at h2 h1 <;> rw [e2] at h3 h2 <;> rw [e3] at h4 h3 <;> rcases e4 with e4 | e4 <;>
+    rw [e4] at h4 ⊢ <;> constructor <;> intro _ <;> omega
+
+/-- scalar `reduce`: fold of l4, comparison with n, conditional subtraction -/
+theorem screduce_arith (low l4 T cs c0 R c43 : Int)
+    (hlow : 0 ≤ low ∧ low < 2 ^ 256) (hl4 : 0 ≤ l4 ∧ l4 ≤ 1) (hrel : l4 = 1 → low < 2 ^ 141)
+    (hT : 0 ≤ T ∧ T < 2 ^ 256) (hcs : 0 ≤ cs) (hR : 0 ≤ R ∧ R < 2 ^ 256) (hc43 : 0 ≤ c43 ∧ c43 ≤ 1)
+    (hc0 : c0 = 0 ∨ c0 = 1)
+    (hc0' : c0 = 0 ↔ T + 432420386565659656852420866394968145599 < 2 ^ 256)
+    (id1 : T + 2 ^ 256 * cs = low + 432420386565659656852420866394968145599 * l4)
+    (id3 : R + 2 ^ 256 * c43 = T + 432420386565659656852420866394968145599 * c0) :
+    R < 115792089237316195423570985008687907852837564279074904382605163141518161494337 ∧
+    R = (low + 2 ^ 256 * l4) % 115792089237316195423570985008687907852837564279074904382605163141518161494337 := by
+  have hcs0 : cs = 0 := by
+    have : l4 = 0 ∨ l4 = 1 := by omega
+    rcases this with h | h
+    · subst h; omega
+    · have := hrel h; subst h; omega
+  subst hcs0
+  have hRlt : R < 115792089237316195423570985008687907852837564279074904382605163141518161494337 := by
+    rcases hc0 with h | h
+    · have := hc0'.mp h; subst h; omega
+    · have : ¬ (T + 432420386565659656852420866394968145599 < 2 ^ 256) := fun hh => by
+        have := hc0'.mpr hh; omega
+      subst h; omega
+  refine ⟨hRlt, ?_⟩
+  have hq : c43 = c0 := by
+    rcases hc0 with h | h
+    · have := hc0'.mp h; subst h; omega
+    · have : ¬ (T + 432420386565659656852420866394968145599 < 2 ^ 256) := fun hh => by
+        have := hc0'.mpr hh; omega
+      subst h; omega
+  have : low + 2 ^ 256 * l4 = R + 115792089237316195423570985008687907852837564279074904382605163141518161494337 * (l4 + c0) := by
+    rw [hq] at id3
+    linarith
+  rw [this, Int.add_mul_emod_self_left, Int.emod_eq_of_lt hR.1 hRlt]
+
+/-- scalar `Lsh8`, the shift: the five words `vᵢ<<8 | vᵢ₋₁>>56` hold exactly 256·v -/
+theorem shift_arith (a b c d e L0 L1 L2 L3 L4 : Int)
+    (ha : 0 ≤ a ∧ a ≤ 2 ^ 64 - 1) (hb : 0 ≤ b ∧ b ≤ 2 ^ 64 - 1) (hc : 0 ≤ c ∧ c ≤ 2 ^ 64 - 1)
+    (hd : 0 ≤ d ∧ d ≤ 2 ^ 64 - 1) (he : 0 ≤ e ∧ e ≤ 1)
+    (h0 : L0 = (a * 2 ^ 8) % 2 ^ 64) (h1 : L1 = (b * 2 ^ 8) % 2 ^ 64 + a / 2 ^ 56)
+    (h2 : L2 = (c * 2 ^ 8) % 2 ^ 64 + b / 2 ^ 56) (h3 : L3 = (d * 2 ^ 8) % 2 ^ 64 + c / 2 ^ 56)
+    (h4 : L4 = (e * 2 ^ 8) % 2 ^ 64 + d / 2 ^ 56) :
+    (0 ≤ L0 ∧ L0 ≤ 2 ^ 64 - 1) ∧ (0 ≤ L1 ∧ L1 ≤ 2 ^ 64 - 1) ∧ (0 ≤ L2 ∧ L2 ≤ 2 ^ 64 - 1) ∧
+    (0 ≤ L3 ∧ L3 ≤ 2 ^ 64 - 1) ∧ (0 ≤ L4 ∧ L4 ≤ 511) ∧
+    L0 + 2 ^ 64 * L1 + 2 ^ 128 * L2 + 2 ^ 192 * L3 + 2 ^ 256 * L4
+      = 256 * (a + 2 ^ 64 * b + 2 ^ 128 * c + 2 ^ 192 * d + 2 ^ 256 * e) := by
+  refine ⟨by omega, by omega, by omega, by omega, by omega, ?_⟩
+  have e0 : L0 = 256 * a - 2 ^ 64 * (a / 2 ^ 56) := by omega
+  have e1 : L1 = 256 * b - 2 ^ 64 * (b / 2 ^ 56) + a / 2 ^ 56 := by omega
+  have e2 : L2 = 256 * c - 2 ^ 64 * (c / 2 ^ 56) + b / 2 ^ 56 := by omega
+  have e3 : L3 = 256 * d - 2 ^ 64 * (d / 2 ^ 56) + c / 2 ^ 56 := by omega
+  have e4 : L4 = 256 * e + d / 2 ^ 56 := by omega
+  rw [e0, e1, e2, e3, e4]; ring
+
 end C18A
